@@ -84,6 +84,19 @@ CHECKS = {
         technique='symbolic execution of the real Python code (CrossHair/z3) against a re-translated edited workbook as reference',
         engine='E1',
     ),
+    'C08': dict(
+        category='other',
+        text=('Bounded exhaustive exploration of the Executor query-schedule space (one override, two queries over all five query APIs and '
+              'addressing styles; 78 750 schedules), enumerated by z3 (DFS with blocking constraints over the schedule variables) and executed '
+              'natively on the real Executor over the class emitted by the real Parser; each schedule is compared with a fresh Executor, and '
+              'overrides/sizes/grid shape are checked. The code under test hashes every value, so the solver acts as the exhaustive enumerator '
+              'of the stated finite space rather than abstracting values.'),
+        design_ref='DESIGN.md section 6 / C08',
+        note=('one workbook (the C04 one); at most two queries after one override; concurrency and longer schedules are outside the claim. '
+              'E1 (CrossHair) was tried first and abandoned for this property: 1 s per path (measured), see DESIGN.md.'),
+        technique='solver-enumerated bounded exploration (z3 DFS) with native execution of the real code',
+        engine='E2',
+    ),
 }
 
 NOT_YET = {}   # filled below for every property without a check
